@@ -201,6 +201,28 @@ func judge(sc *proto.Scenario, res *proto.Result, refs [][]*proto.OpResult, meta
 		return best
 	}
 
+	if res.Crashed {
+		// which operation killed the process is not known; what is known is
+		// which ones were in flight
+		f := finding{Props: []string{"C12", "C14"}, Class: "O-CRASH", Kind: "process", Task: -1, Op: -1, rootIdx: -1}
+		var names []string
+		for _, r := range res.InFlight {
+			if r.Task >= len(sc.Tasks) || r.Op >= len(sc.Tasks[r.Task]) {
+				continue
+			}
+			op := &sc.Tasks[r.Task][r.Op]
+			names = append(names, fmt.Sprintf("task %d op %d (%s)", r.Task, r.Op, op.Kind))
+			if usesMod(op.Kind) && f.ConsequenceOf == "" {
+				if ri := rootFor(op.Mod, r.Task, r.Op, ^uint64(0)); ri >= 0 && ri < len(out) {
+					f.ConsequenceOf = out[ri].sigClass()
+					f.rootIdx = ri
+				}
+			}
+		}
+		f.Detail = "worker process died although every operation survives in a pristine process; in flight: " + strings.Join(names, ", ") + ": " + firstLines(res.CrashText, 6)
+		add(f)
+	}
+
 	for ti := range sc.Tasks {
 		for oi := range sc.Tasks[ti] {
 			op := &sc.Tasks[ti][oi]
